@@ -72,7 +72,7 @@ Hypothesis Hlocal : local r m = true.
 Hypothesis Hknown : known_C21 r m = false.
 
 Lemma known_parts :
-  k_arg_path r m = false /\ k_sole_struct r m = false /\ k_arg0ns_untyped r m = false.
+  k_arg_path r m = false /\ k_sole_struct r m = false.
 Proof.
   unfold known_C21 in Hknown. repeat (apply orb_false_iff in Hknown as [Hknown ?]). auto.
 Qed.
@@ -109,19 +109,21 @@ Qed.
 
 Lemma c_arg0ns : chk_arg0ns r m = s_arg0ns r m.
 Proof.
-  destruct known_parts as (_ & _ & Hk). unfold chk_arg0ns, s_arg0ns, k_arg0ns_untyped in *.
-  destruct (r_arg0ns r) as [ns|]; [|reflexivity].
+  destruct known_parts as (_ & Hk). unfold chk_arg0ns, s_arg0ns, k_sole_struct, has_arg0ns in *.
+  destruct (r_arg0ns r) as [ns|]; [|reflexivity]. rewrite orb_true_r in Hk. cbn [andb] in Hk.
   destruct (m_body m) as [|a0 rest]; [reflexivity|].
-  destruct a0; try discriminate. cbn [arg0_raw]. rewrite bus_ok.
-  destruct (spec_bus s); [|reflexivity]. cbn. apply strip_prefix_dot.
+  destruct a0; try reflexivity.
+  - cbn [body_sig_starts_with_s negb arg0_raw]. rewrite bus_ok.
+    destruct (spec_bus s); [|reflexivity]. cbn. apply strip_prefix_dot.
+  - destruct rest; [discriminate Hk|reflexivity].
 Qed.
 
 Lemma c_args : chk_args r m = forallb (s_arg (m_body m)) (r_args r) && forallb (s_arg_path (m_body m)) (r_arg_paths r).
 Proof.
-  destruct known_parts as (Hp & Hs & _). unfold chk_args, k_sole_struct, has_args, k_arg_path in *.
+  destruct known_parts as (Hp & Hs). unfold chk_args, k_sole_struct, has_args, k_arg_path in *.
   destruct (is_nil (r_args r) && is_nil (r_arg_paths r)) eqn:En.
   - apply andb_true_iff in En as [E1 E2]. destruct (r_args r); [|discriminate]. destruct (r_arg_paths r); [|discriminate]. reflexivity.
-  - cbn [negb andb] in Hs.
+  - cbn [negb andb orb] in Hs.
     assert (Hfields : m_body m = [] \/ (m_body m <> [] /\ body_fields (m_body m) = Some (m_body m))).
     { destruct (m_body m) as [|a [|b rest]]; [now left| |].
       - right. split; [discriminate|]. destruct a; try reflexivity. discriminate.
@@ -205,8 +207,18 @@ Lemma sole_struct_refuted :
   counterexample [OArg 0 (B "x")] (sig_msg (B "/") None [AStructSU (B "x") 7]) true.
 Proof. eexists. split; [reflexivity|]. repeat split. Qed.
 
-Lemma arg0ns_untyped_refuted :
-  counterexample [OArg0ns (B "a")] (sig_msg (B "/") None [AU32 3; AByte "a"; AByte "."; AByte "b"; AByte x00]) true.
+(* the same flattening lets arg0namespace see the first field of a struct *)
+Lemma sole_struct_arg0ns_refuted :
+  counterexample [OArg0ns (B "a")] (sig_msg (B "/") None [AStructSU (B "a.b") 7]) true.
+Proof. eexists. split; [vm_compute; reflexivity|]. repeat split. Qed.
+
+(* repaired by fix 3ae57b16: a first argument that is not a string is no longer read as one *)
+Example arg0ns_untyped_fixed : exists r, build [OArg0ns (B "a")] = Ok r /\
+  let m := sig_msg (B "/") None [AU32 3; AByte "a"; AByte "."; AByte "b"; AByte x00] in
+  matches r m = Ok false /\ known_C21 r m = false /\
+  matches r (sig_msg (B "/") None [APath (B "/a")]) = Ok false /\
+  matches r (sig_msg (B "/") None [AStructSU (B "a.b") 7; AU32 1]) = Ok false /\
+  matches r (sig_msg (B "/") None [AStr (B "a.b"); AU32 1]) = Ok true.
 Proof. eexists. split; [vm_compute; reflexivity|]. repeat split. Qed.
 
 Lemma full_refuted : ~ C21_full_statement.
@@ -219,8 +231,7 @@ Qed.
 Lemma witnesses_classified :
   (forall r, build [OArgPath 0 (B "/a")] = Ok r -> class_of r (sig_msg (B "/") None [AStr (B "/a")]) = B "arg_path_rules") /\
   (forall r, build [OArg 0 (B "x")] = Ok r -> class_of r (sig_msg (B "/") None [AStructSU (B "x") 7]) = B "sole_struct_flattened") /\
-  (forall r, build [OArg0ns (B "a")] = Ok r ->
-     class_of r (sig_msg (B "/") None [AU32 3; AByte "a"; AByte "."; AByte "b"; AByte x00]) = B "arg0ns_untyped").
+  (forall r, build [OArg0ns (B "a")] = Ok r -> class_of r (sig_msg (B "/") None [AStructSU (B "a.b") 7]) = B "sole_struct_flattened").
 Proof. repeat split; intros r H; vm_compute in H; inversion H; subst; reflexivity. Qed.
 
 (* ---- non-vacuity: the hypotheses of the partial theorem hold for a rule with every key and a matching
